@@ -17,12 +17,14 @@ unset GOFLAGS
 go build -mod=mod ./... && echo "CONFIRM build=ok"
 cp /tmp/wt/$ID.mutant/demo_test.go $DEMODIR/zz_demo_test.go
 go test -mod=mod -vet=off -count=1 -run 'Demo|demo|ZZ|C[0-9][0-9]|Tombstone' ./$DEMODIR 2>&1 | grep -E "^(--- FAIL|FAIL|ok|panic)" | head; echo "CONFIRM demo_with_change_exit=${PIPESTATUS[0]}"
-git stash -q -- $(git diff --name-only)
+# (no git stash: the stash is shared between the worktrees of one repository)
+git diff > /tmp/wt/$ID.applied.diff
+git apply -R /tmp/wt/$ID.applied.diff
 go test -mod=mod -vet=off -count=1 -run 'Demo|demo|ZZ|C[0-9][0-9]|Tombstone' ./$DEMODIR 2>&1 | grep -E "^(--- FAIL|FAIL|ok|panic)" | head; echo "CONFIRM demo_without_change_exit=${PIPESTATUS[0]}"
-git stash pop -q
+git apply /tmp/wt/$ID.applied.diff
 rm -f $DEMODIR/zz_demo_test.go
 git status --short
-go test -mod=mod -vet=off -count=1 -timeout 40m ./... 2>&1 | grep -E "^(--- FAIL|FAIL|ok|panic)" | head -20; echo "CONFIRM suite_exit=${PIPESTATUS[0]}"
+go test -mod=mod -vet=off -count=1 -timeout 180m ./... 2>&1 | grep -E "^(--- FAIL|FAIL|ok|panic)" | head -20; echo "CONFIRM suite_exit=${PIPESTATUS[0]}"
 mkdir -p /verif/seeded/$ID
 cp /tmp/wt/$ID.mutant/patch.diff /tmp/wt/$ID.mutant/demo_test.go /tmp/wt/$ID.mutant/notes.md /verif/seeded/$ID/ 2>/dev/null
 git diff > /verif/seeded/$ID/patch.diff
